@@ -1,4 +1,6 @@
 import Firebolt.Model.Tracker
+import Firebolt.Generated.Source
+import Firebolt.Expected.Source
 /-!
 # C08 — Recovery requests are never lost by merging and replicate as full snapshots
 
@@ -469,5 +471,19 @@ example :
     (∀ op ∈ ops, Op.isLocal op = true) ∧ (run [] ops).1.get? 0 = some [⟨5, 6⟩] ∧
       (recvAll [] (latestPerKey (allBcasts (run [] ops).2))).get? 0 = some [⟨5, 6⟩] := by
   decide
+
+
+/-! ### the functions this model was transcribed from are unchanged (regenerated from /repo on every run) -/
+theorem source_getRecoveryRequest : GeneratedSrc.getRecoveryRequest = ExpectedSrc.getRecoveryRequest := by rfl
+theorem source_addRecoveryRequest : GeneratedSrc.addRecoveryRequest = ExpectedSrc.addRecoveryRequest := by rfl
+theorem source_updateRecoveryRequest : GeneratedSrc.updateRecoveryRequest = ExpectedSrc.updateRecoveryRequest := by rfl
+theorem source_markRecoveryComplete : GeneratedSrc.markRecoveryComplete = ExpectedSrc.markRecoveryComplete := by rfl
+theorem source_cancelAll : GeneratedSrc.cancelAll = ExpectedSrc.cancelAll := by rfl
+theorem source_sendRecoveryRequests : GeneratedSrc.sendRecoveryRequests = ExpectedSrc.sendRecoveryRequests := by rfl
+theorem source_receiveRequest : GeneratedSrc.receiveRequest = ExpectedSrc.receiveRequest := by rfl
+theorem source_tyRecoveryRequest : GeneratedSrc.tyRecoveryRequest = ExpectedSrc.tyRecoveryRequest := by rfl
+theorem source_tyRecoveryRequests : GeneratedSrc.tyRecoveryRequests = ExpectedSrc.tyRecoveryRequests := by rfl
+theorem source_trackerMax : GeneratedSrc.trackerMax = ExpectedSrc.trackerMax := by rfl
+theorem source_trackerMin : GeneratedSrc.trackerMin = ExpectedSrc.trackerMin := by rfl
 
 end Firebolt.C08
